@@ -547,7 +547,7 @@ func (a *c18) passFlag() {
 		for f := range flag.users {
 			us = append(us, f)
 		}
-		sort.Slice(us, func(i, j int) bool { return c.P.Decl(us[i]).Pos() < c.P.Decl(us[j]).Pos() })
+		sort.Slice(us, func(i, j int) bool { return c.P.PosLess(c.P.Decl(us[i]).Pos(), c.P.Decl(us[j]).Pos()) })
 		for _, f := range us {
 			a.locksetWalkFlag(c.P.Decl(f).Body, flag.obj, onWrite)
 		}
@@ -988,7 +988,7 @@ func (a *c18) r3() {
 				ps = append(ps, f)
 			}
 		}
-		sort.Slice(ps, func(i, j int) bool { return c.P.Decl(ps[i]).Pos() < c.P.Decl(ps[j]).Pos() })
+		sort.Slice(ps, func(i, j int) bool { return c.P.PosLess(c.P.Decl(ps[i]).Pos(), c.P.Decl(ps[j]).Pos()) })
 		for _, prod := range ps {
 			checked[prod] = true
 			calls := 0
@@ -1099,7 +1099,7 @@ func (a *c18) r4() {
 	for f := range a.worker {
 		ws = append(ws, f)
 	}
-	sort.Slice(ws, func(i, j int) bool { return c.P.Decl(ws[i]).Pos() < c.P.Decl(ws[j]).Pos() })
+	sort.Slice(ws, func(i, j int) bool { return c.P.PosLess(c.P.Decl(ws[i]).Pos(), c.P.Decl(ws[j]).Pos()) })
 	for _, fn := range ws {
 		fd := c.P.Decl(fn)
 		res := resultVars(a.info, fd.Type)
